@@ -347,6 +347,19 @@ struct T<'a> {
 	out: Vec<Point>,
 	/// offsets at which a token (varint, fixed-size field, content region) ends
 	bounds: Vec<usize>,
+	/// per array/map occurrence (pre-order, as `collection_sizes`): the blocks' bodies
+	spans: Vec<Vec<BlockSpan>>,
+}
+
+/// Where the items of one block of an array/map lie in the encoding.
+#[derive(Clone, Copy, Debug, PartialEq, Eq)]
+pub struct BlockSpan {
+	/// offset of the first item byte (after the count and, if present, the byte size)
+	pub start: usize,
+	/// offset just past the last item byte
+	pub end: usize,
+	/// written with a negative count followed by the byte size
+	pub sized: bool,
 }
 
 impl<'a> T<'a> {
@@ -434,6 +447,8 @@ impl<'a> T<'a> {
 			S::Array(item) | S::Map(item) => {
 				let is_map = matches!(s, S::Map(_));
 				let min_item = min_size(item, self.env, 4) + usize::from(is_map);
+				let occ = self.spans.len();
+				self.spans.push(Vec::new());
 				loop {
 					let (c, off, len) = self.varint()?;
 					self.out.push(Point { kind: PointKind::BlockCount { min_item }, off, len });
@@ -443,12 +458,14 @@ impl<'a> T<'a> {
 					if c < 0 {
 						self.varint()?;
 					}
+					let start = self.i;
 					for _ in 0..c.unsigned_abs() {
 						if is_map {
 							self.len_prefixed(true)?;
 						}
 						self.walk(item)?;
 					}
+					self.spans[occ].push(BlockSpan { start, end: self.i, sized: c < 0 });
 				}
 			}
 			S::Ref(_) | S::Logical(..) => unreachable!(),
@@ -460,12 +477,23 @@ impl<'a> T<'a> {
 /// Points and token boundaries of the encoding `bytes` of a value of `s`; `None` if the walk fails
 /// (not an encoding).
 pub fn trace(bytes: &[u8], s: &RSchema, env: &Env) -> Option<(Vec<Point>, Vec<usize>)> {
-	let mut t = T { b: bytes, i: 0, env, out: Vec::new(), bounds: Vec::new() };
+	let mut t = T { b: bytes, i: 0, env, out: Vec::new(), bounds: Vec::new(), spans: Vec::new() };
 	t.walk(s)?;
 	if t.i != bytes.len() {
 		return None;
 	}
 	Some((t.out, t.bounds))
+}
+
+/// Byte ranges of the blocks of every array/map occurrence of the encoding `bytes` (occurrences in
+/// the pre-order of `collection_sizes` / of the recorded layouts); `None` if not an encoding.
+pub fn trace_blocks(bytes: &[u8], s: &RSchema, env: &Env) -> Option<Vec<Vec<BlockSpan>>> {
+	let mut t = T { b: bytes, i: 0, env, out: Vec::new(), bounds: Vec::new(), spans: Vec::new() };
+	t.walk(s)?;
+	if t.i != bytes.len() {
+		return None;
+	}
+	Some(t.spans)
 }
 
 // ---------------------------------------------------------------------------------------------
